@@ -19,6 +19,11 @@ def main():
         "'\u0958\u0958\u0958' #", "'\u09dc' + \x01", "'e\u0301' ?? 1",
         "'\ufb2a\ufb2a' \x7f", "'a\r\nb' #", "'\u212b' + + )",
         "'\U0001d15e\U0001d15e' #", "1 +\r\n #"]
+    # deeply nested (but valid) inputs: parsing is iterative, no input may
+    # exhaust the interpreter stack
+    texts += ['1' + ' + 1' * 400, '-' * 400 + '1', '(' * 300 + '1' + ')' * 300,
+              '$' + '.a' * 400, 'f(' * 300 + '1' + ')' * 300,
+              '[' * 300 + '1' + ']' * 300, 'not ' * 300 + 'true']
     for t in texts:
         try:
             engine(t)
@@ -30,7 +35,7 @@ def main():
                     pos, len(t))
             elif pos is not None and isinstance(
                     e, exceptions.YaqlLexicalException) and \
-                    t[pos] != e.value:
+                    not t.startswith(str(e.value), pos):
                 bad = 'lexical error reports %r at %d, the text has %r ' \
                       'there' % (e.value, pos, t[pos])
             if bad:
